@@ -12,12 +12,6 @@ def genErr : Generic.Err → String
 def splitBar (ws : List String) : List String × List String :=
   (ws.takeWhile (· ≠ "|"), (ws.dropWhile (· ≠ "|")).drop 1)
 
-def parseNats : List String → Option (List Nat)
-  | [] => some []
-  | w :: r => match w.toNat?, parseNats r with
-    | some i, some l => some (i :: l)
-    | _, _ => none
-
 def showLists (ls : List (List Int)) : String := joinWith ";" (ls.map showInts)
 
 def showCombos (l : List (List Nat × Nat)) : String :=
